@@ -117,6 +117,7 @@ def _compile_patching(tree, reverse_prefix, vendor):
 
 @functools.lru_cache()
 def _make_reverse(row, reverse_prefix, flags=0):
+    row = row.replace("(?i)", "")  # the flag is part of the pattern, not of the command text
     if row.startswith(reverse_prefix + " "):
         row = row[len(reverse_prefix + " "):]
     else:
